@@ -10,7 +10,10 @@ RULE = ("controlled schedules (real threads, one runnable at a time, yield at ev
         "struct, void, unique_ptr (move-only), reference; payload and exception are "
         "instance counted, ASan + LSan (leak check after every case) are observations; random, bursty, resolver-starving and resolver-first "
         "schedules; thorough adds every schedule prefix of length 6 over 3 choices for 18 small configurations; "
-        "non-trivial = at least 3 thread switches in the executed trace; distinct = distinct (threads, schedule)")
+        "non-trivial = at least 3 thread switches in the executed trace; distinct = distinct (threads, schedule); "
+        "plus a free-running stress part (no forced interleaving): two threads released by a spin barrier drop the last two handles of a "
+        "pending state at once (destructor / move assignment / copy assignment), resolver afterwards, up to 40000 (quick) / 100000 (thorough) "
+        "rounds per configuration bounded to 2 s / 5 s, observation independent of the number of rounds run")
 SCOPE = ("shared_future ctor(fn(promise)) / ctor(fn->future) / default ctor / init_if_needed / get_promise / set_value / copy / destructor / "
          "ready / value / sync / operator co_await, resolve_cb::charge and the tracer callback, future::get_promise/result_of/set/resolve/value, "
          "promise::set_value/set_exception/drop, awaiter::resume_chain_set_ready/resume_chain_lk/subscribe_check_ready, co_awaiter sync/await_*")
@@ -83,7 +86,20 @@ def gen(seed, tier):
     return cases
 
 
+def gen_stress(seed, tier):
+    """free-running part: two threads drop the last two handles of a pending state at once, resolver afterwards"""
+    rng = random.Random(seed * 1000003 + 7117)
+    cfgs = [(0, 0, 0), (1, 0, 1), (2, 1, 2), (3, 0, 0), (0, 2, 1)]
+    if tier != "quick":
+        cfgs += [(m, k, d) for m in range(4) for k in range(3) for d in range(3)]
+    rng.shuffle(cfgs)
+    rounds = 40000 if tier == "quick" else 100000
+    return [Case("sf_stress", "st%d" % i, [[7, rounds, m, k, d]]) for i, (m, k, d) in enumerate(cfgs)]
+
+
 def nontrivial(case, model_obs):
+    if case.engine == "sf_stress":
+        return True
     tids = [l.split()[0] for l in model_obs if len(l.split()) == 2]
     switches = sum(1 for a, b in zip(tids, tids[1:]) if a != b)
     return switches >= 3
@@ -102,4 +118,5 @@ def signature(case, impl_obs, model_obs):
     return "shared:oracle"
 
 
-PARTS = [{"name": "ctl_shared", "harness": "ctl_shared.cpp", "gen": gen, "no_shrink": False, "timeout_case": 10}]
+PARTS = [{"name": "ctl_shared", "harness": "ctl_shared.cpp", "gen": gen, "no_shrink": False, "timeout_case": 60},
+         {"name": "stress_shared", "harness": "stress_shared.cpp", "gen": gen_stress, "no_shrink": True, "timeout_case": 30}]
